@@ -44,6 +44,10 @@ def tables(tier):
         dict(name="ssi_release", variant="SSI", F=t_ssi, xs=[38, 81], ys=[5, 9], maxlen=3, init_shift=True, keys=["shift"]),
         dict(name="plscf_release", variant="pLSCF", F=t_pl, xs=[38, 81], ys=[1, 5], maxlen=3, init_shift=True, keys=["shift"]),
         dict(name="fdd_release", variant="FDD", F=fdd, xs=[9, 30], ys=[0], maxlen=3, init_shift=True, keys=["shift"]),
+        # run parameter ordmin > 0 (the columns below it hold no poles): the picked order is still the table column
+        dict(name="ssi_ordmin", variant="SSI", F=t_ssi, xs=[38, 81, 130], ys=[5, 9, 14], maxlen=3, init_shift=True, keys=[], ordmin=1),
+        dict(name="plscf_ordmin", variant="pLSCF", F=[[NAN] + r for r in t_pl], xs=[38, 81, 130], ys=[5, 9, 14], maxlen=3, init_shift=True,
+             keys=[], ordmin=1),
     ]
     if tier == "thorough":
         out = [
@@ -54,6 +58,8 @@ def tables(tier):
             dict(name="ssi_sim6", variant="SSI", F=t_ssi, xs=xs, ys=ys, maxlen=6, simulate="num=1500"),
             dict(name="plscf_sim6", variant="pLSCF", F=t_pl, xs=xs, ys=[1, 5, 9], maxlen=6, simulate="num=800"),
             dict(name="fdd_sim6", variant="FDD", F=fdd, xs=[1, 9, 14, 30], ys=[0], maxlen=6, simulate="num=800"),
+            dict(name="ssi_ordmin", variant="SSI", F=t_ssi, xs=xs, ys=ys, maxlen=4, ordmin=1),
+            dict(name="plscf_ordmin", variant="pLSCF", F=[[NAN] + r for r in t_pl], xs=xs, ys=ys, maxlen=4, ordmin=1),
         ]
     return out
 
@@ -94,11 +100,11 @@ def make_algo(t):
                 Phi[r, c, :] = [1.0, 0.01 * (r + 1), 0.01 * (c + 1)]
     Lab = np.where(np.isfinite(Fn), 1, 0)
     if t["variant"] == "SSI":
-        alg = A.SSIcov(name="ssi", br=4, ordmax=nc - 1)
+        alg = A.SSIcov(name="ssi", br=4, ordmax=nc - 1, ordmin=t.get("ordmin", 0))
         alg._set_data(data, fs=100.0)
         alg.result = SSIResult(Fn_poles=Fn, Xi_poles=Xi, Phi_poles=Phi, Lab=Lab)
     else:
-        alg = A.pLSCF(name="pl", ordmax=nc)
+        alg = A.pLSCF(name="pl", ordmax=nc, ordmin=t.get("ordmin", 0))
         alg._set_data(data, fs=100.0)
         alg.result = pLSCFResult(Fn_poles=Fn, Xi_poles=Xi, Phi_poles=Phi, Lab=Lab)
     return alg
